@@ -15,7 +15,8 @@ RULE = ("histories of constructions, in-place transformations, operators (genera
         "box, containment of fixed points, S == deepcopy(S), S op T for a third shape T, T in S -- asked of the LIVE object "
         "and of a deep copy built just before, and the same operator evaluated before and after the others on the same "
         "operands; a sample of histories is re-executed in a second process with another PYTHONHASHSEED and cold module "
-        "caches; non-trivial = the history contains an operator or scale/rotate before the queries; distinct = SHA-1")
+        "caches; shapes of different segment degrees (square, circle, cubic blob, triangle) queried in different orders, "
+        "each order in its own cold process, and in the warm checking process; non-trivial = the history contains an operator or scale/rotate before the queries; distinct = SHA-1")
 PROOF_STATUS = ("Props/C10.v: cache coherence + identity structure are invariants of every operation; a containment query on "
                 "the live object equals the value model on the current geometry in every reachable state; stale-cache "
                 "refutation of the unrepaired code")
@@ -46,10 +47,18 @@ def cases(ctx):
         env = OC.gen_env(rng, 2, R=rng.choice([6, 10]))
         if env:
             yield {"order": env, "ops": rng.sample(list("|&-^"), 3)}
+    # evaluation order across objects of different kinds (segment degrees 1, 2, 3): every order in its own cold process
+    for i in range(ctx.n(2, 24)):
+        specs = [["square", rng.choice([2, 3])], ["circle", rng.choice([1, 2]), rng.choice([4, 8])],
+                 ["cubic", rng.choice([1, 2])], ["polygon", [[rng.randint(-4, 4), rng.randint(-4, 4)] for _ in range(3)]]]
+        specs = [sp for sp in specs if sp[0] != "polygon" or G.is_simple_polygon([(F(a), F(b)) for a, b in sp[1]])]
+        order = list(range(len(specs)))
+        rng.shuffle(order)
+        yield {"mixed": specs, "perm": order}
 
 
 def nontrivial(case):
-    if "order" in case:
+    if "order" in case or "mixed" in case:
         return True
     return any(op[0] in ("bin", "scale", "rot") for op in case["hist"])
 
@@ -82,6 +91,37 @@ def _battery(S, T):
     out["S|T"] = I.outcome(lambda: float(S | T))
     out["S&T"] = I.outcome(lambda: float(S & T))
     return out
+
+
+def _mixed_shape(sp):
+    if sp[0] == "square":
+        return I.Primitive.square(sp[1])
+    if sp[0] == "circle":
+        return I.Primitive.circle(sp[1], (0, 0), sp[2])
+    if sp[0] == "cubic":
+        k = sp[1]
+        return I.SimpleShape(I.JordanCurve.from_ctrlpoints([[(k, 0), (k, k), (0, k), (-k, 0)], [(-k, 0), (-k, -k), (0, -k), (k, 0)]]))
+    return I.Primitive.polygon([tuple(p) for p in sp[1]])
+
+
+def mixed_answers(specs, perm):
+    """answers of every shape to the point queries and integrals, the shapes being queried in the order perm"""
+    shapes = [_mixed_shape(sp) for sp in specs]
+    pts = [(x / 4.0, y / 4.0) for x in range(-9, 10, 2) for y in range(-9, 10, 3)] + [(0.636, 0.636), (1.3, 1.3), (0.9, 0.2)]
+    out = {}
+    for i in perm:
+        S = shapes[i]
+        out[str(i)] = {"mem": [[bool(S.contains_point(p, True)), bool(S.contains_point(p, False))] for p in pts],
+                       "area": float(S), "len": [float(j) for j in S.jordans],
+                       "ixx": float(I.IntegrateShape.polynomial(S, 2, 0)) if hasattr(I, "IntegrateShape") else 0.0}
+    return out
+
+
+def _subprocess(payload):
+    env2 = dict(os.environ, PYTHONHASHSEED="4242")
+    p = subprocess.run([sys.executable, "-W", "ignore", "-m", "harness.props.c10"], input=json.dumps(payload), capture_output=True,
+                       text=True, env=env2, timeout=600, cwd=os.path.dirname(os.path.dirname(os.path.dirname(os.path.abspath(__file__)))))
+    return json.loads(p.stdout.strip().split("\n")[-1]), p.stderr[-300:]
 
 
 def _close(a, b):
@@ -120,6 +160,24 @@ def check(ctx, case):
             if not same:
                 fails.append(Fail(kind="O", what="A %s B after other operators on the same operands differs from fresh operands" % op,
                                   impl=str(r)[:300], expected=str(fr)[:300]))
+        return fails
+    if "mixed" in case:
+        specs, perm = case["mixed"], list(case["perm"])
+        ctx.count("mixed-degree evaluation orders")
+        try:
+            a, _ = _subprocess({"mixed": specs, "perm": perm})
+            b, _ = _subprocess({"mixed": specs, "perm": perm[::-1]})
+            c, _ = _subprocess({"mixed": specs, "perm": sorted(perm)})
+        except Exception as exc:
+            return [Fail(kind="O", what="cold process failed: %r" % (exc,))]
+        for other, name in ((b, "reversed"), (c, "sorted")):
+            if not _close(a, other):
+                bad = [k for k in a if not _close(a[k], other.get(k))]
+                fails.append(Fail(kind="O", what="answers of shape(s) %s depend on which other objects were queried before (%s order)" % (bad, name)))
+        # and here, in this long-lived process
+        mine = json.loads(json.dumps(mixed_answers(specs, perm)))
+        if not _close(mine, a):
+            fails.append(Fail(kind="O", what="answers in this (warm) process differ from a cold process"))
         return fails
     hist, probe = case["hist"], case["probe"]
     for op in hist:
@@ -197,7 +255,11 @@ def _plain(x):
 
 
 if __name__ == "__main__":
-    c = ser.from_j(json.loads(sys.stdin.read()))
+    raw = json.loads(sys.stdin.read())
+    if "mixed" in raw:
+        print(json.dumps(mixed_answers(raw["mixed"], raw["perm"])))
+        sys.exit(0)
+    c = ser.from_j(raw)
     hist = [tuple(op) for op in c["hist"]]
     hist = [tuple(tuple(x) if isinstance(x, list) and op[0] != "new" else x for x in op) for op in hist]
     live, _ = run_history_answers(hist, c["probe"])
